@@ -268,7 +268,7 @@ func knownCondShape(p *Prog) string {
 func RunFragment(rng *lib.Rng, tier string, dir string, sum *lib.Summary) {
 	nProg, nMut := 170, 2
 	if tier == "thorough" {
-		nProg, nMut = 2500, 3
+		nProg, nMut = 1200, 2
 	}
 	cw := &lib.CaseWriter{Dir: dir, Prefix: "c01frag", Header: fragHeader, ElemType: "case",
 		CheckFn: "check_case", PerFile: 120}
@@ -322,20 +322,39 @@ func RunFragment(rng *lib.Rng, tier string, dir string, sum *lib.Summary) {
 			sum.Count("frag:outcome:vm:" + orOk(cv))
 		}
 		key := "frag:model-mismatch:" + strings.SplitN(origin, ":", 2)[0]
-		if acc && (ci == lib.EInternal || ci == lib.ECrash || cv == lib.EInternal || cv == lib.ECrash) {
-			eng, o := "interpreter", oi
-			if !(ci == lib.EInternal || ci == lib.ECrash) {
-				eng, o = "vm", ov
+		sigOf := func(o lib.Outcome) string {
+			if o.Err == nil {
+				return ""
 			}
-			k := "frag:internal:" + eng
-			if ks := knownCondShape(p); ks != "" {
-				k = "frag:internal:" + eng + ":" + ks
+			return internalSignature(o.Err.Error(), src)
+		}
+		sg := sigOf(oi)
+		if sg == "" {
+			sg = sigOf(ov)
+		}
+		if sg != "" && (ci == lib.EInternal || cv == lib.EInternal) {
+			key = "frag" + sg
+		}
+		for _, eo := range []struct {
+			eng string
+			cls string
+			o   lib.Outcome
+		}{{"interpreter", ci, oi}, {"vm", cv, ov}} {
+			if !acc || !(eo.cls == lib.EInternal || eo.cls == lib.ECrash) {
+				continue
 			}
+			eng, o := eo.eng, eo.o
 			msg := ""
 			if o.Err != nil {
 				msg = o.Err.Error()
 			} else {
 				msg = fmt.Sprint(o.Panic)
+			}
+			k := "frag:internal:" + eng
+			if ks := knownCondShape(p); ks != "" && strings.Contains(msg, "invalid member access") {
+				k = "frag:internal:" + eng + ":" + ks
+			} else if sg := internalSignature(msg, src); sg != "" {
+				k = "frag:internal:" + eng + sg
 			}
 			if len(msg) > 500 {
 				msg = msg[:500]
@@ -392,6 +411,15 @@ func RunFragment(rng *lib.Rng, tier string, dir string, sum *lib.Summary) {
 	_ = filepath.Join
 }
 
+// narrow signatures of known internal errors (matched on the error text AND the program shape)
+func internalSignature(msg, src string) string {
+	if strings.Contains(src, ".append(") &&
+		(strings.Contains(msg, "unexpected: unreachable") || strings.Contains(msg, "can't convert")) {
+		return ":covariant-append-number-convert"
+	}
+	return ""
+}
+
 func orOk(c string) string {
 	if c == "" {
 		return "ok"
@@ -426,5 +454,12 @@ func fragCorpus() []*Prog {
 		{Op: "return", E: &Expr{Op: "coal", Typ: tInt8, Bx: lit8(9),
 			A: &Expr{Op: "cond", C: tru(), A: evar(0, tInt8), Bx: nilE(), Typ: tOpt(tInt8)}}},
 	}}}}
-	return []*Prog{optchain, coal}
+	// fun main(): Int8 { var v0: [Int8] = [1]; var v1: [AnyStruct] = v0; v1.append("x"); return 1 }
+	covar := &Prog{Funs: []*Fun{{Ret: tInt8, Body: []*Stmt{
+		{Op: "let", Ann: tArr(tInt8), E: &Expr{Op: "arr", Es: []*Expr{lit8(1)}, T: tInt8, Typ: tArr(tInt8)}, V: 0},
+		{Op: "let", Ann: tArr(tAnyS), E: evar(0, tArr(tInt8)), V: 1},
+		{Op: "append", G: &Target{Op: "var", X: 1}, E: &Expr{Op: "str", S: "x", Typ: tStr}},
+		{Op: "return", E: lit8(1)},
+	}}}}
+	return []*Prog{optchain, coal, covar}
 }
